@@ -123,7 +123,7 @@ def run(ctx):
         ctx.selftest("trace: a candidate accepted from a subtree that stopped", not okc)
     ctx.cov["rule"] = ("NutsTree.tla: every oracle pattern (slice, divergence, U-turn, random choices) to the configured depth, invariants P1/P2/extent/counts/uniform "
                        "selection (wrong merge weight = negative control); build_tree replayed on scripted targets (Replay_NutsTree.tla); traces: Gaussians dim 1..8 with random precision, library Gaussian and Rosenbrock, funnel, "
-                       "steep divergent, half-line (NaN region), forced tiny/huge step sizes (tree depth up to 10), f32 and f64; non-trivial = transitions that moved")
+                       "steep divergent, half-line (NaN region), cliffs (incl. jumps of +1500 / +3200), starts 120..220 sigma out in the tail (leaves thousands of units above the slice level), forced tiny/huge step sizes (tree depth up to 10), f32 and f64; non-trivial = transitions that moved")
     ctx.cov["exhaustive"] = False
 
 
